@@ -22,7 +22,7 @@ type vpCrashed struct{}
 // restart: the process comes up again: new plugin, new tables rebuilt from the store, informer caches re-listed,
 // queued events and key locks gone.
 func (w *vpWorld) restart() error {
-	w.podLocks, w.dpLocks = &vpKeyMutex{w: w}, &vpKeyMutex{w: w}
+	w.podLocks, w.dpLocks = &vpKeyMutex{w: w, pods: true}, &vpKeyMutex{w: w}
 	w.pending = nil
 	w.crashAt, w.faultAt = 0, 0
 	p := &FloatingIPPlugin{
